@@ -799,7 +799,10 @@ def check(prop, tier):
         log(f"UNDECIDED {w}: {why}")
     wall = time.time() - t0
     # evidence
-    n_ob = len(proved) + len([o for o in failed_obs if o.get("level", "P") == "P"])
+    # obligations that failed but are listed as open known findings are reported under their own key: they are neither
+    # discharged nor part of the proof claim (the claim excludes them explicitly, see known_findings.json)
+    known_ids = {id(o) for o, _ in known}
+    n_ob = len(proved) + len([o for o in failed_obs if o.get("level", "P") == "P" and id(o) not in known_ids])
     trusted = []
     for r in results:
         for t in r.get("trusted", []):
@@ -830,6 +833,7 @@ def check(prop, tier):
                          "solver_s": o.get("solver_s"), "checks": o.get("checks_total")} for o in (proved + bounded + failed_obs)][:400],
             "undecided": [list(x) for x in undecided],
             "known_findings_matched": [f.get("what") for _, f in known],
+            "known_finding_obligations": [o["id"] for o, _ in known],
         },
         "assumptions": trusted,
         "wall_s": round(wall, 2),
